@@ -159,6 +159,40 @@ func runFilter(cfg Cfg) {
 		if nOps > cfg.N(700, 1200) {
 			nOps = cfg.N(700, 1200)
 		}
+		// probeAt asks the filter and the prefix set about one address; an address answered true is
+		// remembered, and asked again right after later removals (an answer must not outlive its range)
+		var lastHit []uint32
+		probeAt := func(a uint32, sixteen bool) {
+			var ipb net.IP
+			form := "4"
+			if sixteen {
+				ipb, form = ip16(a), "16"
+			} else {
+				ipb = ip4(a)
+			}
+			got := f.Contains(ipb)
+			want := spec.mem(a)
+			s.Line("has "+hx(ipb), fmt.Sprint(got))
+			s.Evaluations++
+			s.Count("probe." + form + "." + fmt.Sprint(want))
+			if got != want {
+				hist2 := append(append([]filterOp{}, hist...), filterOp{"has", hx(ipb), ""})
+				if len(s.Violations) < 3 {
+					hist2 = ddmin(hist2, filterHistoryFails)
+				}
+				s.Violate("membership", fmt.Sprintf("Contains(%v) = %v, prefix-set says %v", ipb, got, want), hist2)
+			}
+			if want {
+				lastHit = append(lastHit, a)
+				if len(lastHit) > 3 {
+					lastHit = lastHit[1:]
+				}
+			}
+			if want && !spec[pfx{0, 0}] {
+				st := f.VerifState()
+				s.Nontrivial(fmt.Sprintf("%v/%d/%d/%d/%s", st.MapsMode, st.Index, len(st.Maps), a, form))
+			}
+		}
 		added := 0
 		for i := 0; i < nOps; i++ {
 			c := r.Intn(100)
@@ -197,6 +231,17 @@ func runFilter(cfg Cfg) {
 				if r.Chance(4) {
 					ipb, mb = mutateCIDR(r, ipb, mb)
 				}
+				if len(lastHit) > 0 && r.Chance(30) {
+					// remove a stored range that covers a recent hit, named by that very address (host bits set)
+					hit := lastHit[len(lastHit)-1]
+					for sp := range spec {
+						if hit&maskN(sp.ones) == sp.net && (sp.ones < 32 || r.Chance(50)) {
+							ipb, mb = []byte(ip4(hit)), []byte(net.CIDRMask(sp.ones, 32))
+							s.Count("rem.covering-last-hit")
+							break
+						}
+					}
+				}
 				err := f.Remove(&net.IPNet{IP: ipb, Mask: mb})
 				s.Line("rem "+hx(ipb)+" "+hx(mb), errName(err)+" "+filterBrief(f))
 				hist = append(hist, filterOp{"rem", hx(ipb), hx(mb)})
@@ -206,6 +251,10 @@ func runFilter(cfg Cfg) {
 						s.Violate("valid-cidr-rejected", fmt.Sprintf("Remove(%v/%v) = %v", ipb, mb, err), hist)
 					}
 					s.Count("rem.valid")
+					if len(lastHit) > 0 && r.Chance(60) {
+						probeAt(lastHit[len(lastHit)-1], r.Chance(35))
+						s.Count("probe.again-after-remove")
+					}
 				} else {
 					if err != netutil.ErrInvalidIPv4CIDR {
 						s.Violate("invalid-cidr-accepted", fmt.Sprintf("Remove(%v/%v) = %v", ipb, mb, err), hist)
@@ -231,29 +280,7 @@ func runFilter(cfg Cfg) {
 				default:
 					a = uint32(r.U64())
 				}
-				var ipb net.IP
-				form := "4"
-				if r.Chance(35) {
-					ipb, form = ip16(a), "16"
-				} else {
-					ipb = ip4(a)
-				}
-				got := f.Contains(ipb)
-				want := spec.mem(a)
-				s.Line("has "+hx(ipb), fmt.Sprint(got))
-				s.Evaluations++
-				s.Count("probe." + form + "." + fmt.Sprint(want))
-				if got != want {
-					hist2 := append(append([]filterOp{}, hist...), filterOp{"has", hx(ipb), ""})
-					if len(s.Violations) < 3 {
-						hist2 = ddmin(hist2, filterHistoryFails)
-					}
-					s.Violate("membership", fmt.Sprintf("Contains(%v) = %v, prefix-set says %v", ipb, got, want), hist2)
-				}
-				if want && !spec[pfx{0, 0}] {
-					st := f.VerifState()
-					s.Nontrivial(fmt.Sprintf("%v/%d/%d/%d/%s", st.MapsMode, st.Index, len(st.Maps), a, form))
-				}
+				probeAt(a, r.Chance(35))
 			default:
 				s.Line("dump", filterDump(f))
 				s.Count("dump")
